@@ -1,4 +1,4 @@
-CONSTANTS Variant = "std"  MaxSum = 6  MaxIns = 2  MaxPays = 4  MaxFee = 2
+CONSTANTS Variant = "std"  MaxSum = 5  MaxIns = 2  MaxPays = 4  MaxFee = 1
           ScaleKs = {12}  ScaleRs = {0}
           SrcPatterns = {"own"}  ToPatterns = {"distinct"}
           EmitScaled = TRUE
